@@ -11,7 +11,7 @@ PROPERTY = "C16"
 LEVEL = "exploration"
 RULE = ("(a) Every frame of every G2 chain (the C03 program space: depth 0..6 over await / yield from / __await__ objects / "
         "async-generator asend, anext, athrow, aclose, async for; 4 kinds of outermost object), extracted suspended AND from "
-        "inside while the whole chain is running; (b) custom stack-item trees (G3) with frames, without frames, and with a "
+        "inside while the whole chain is running; (b) custom stack-item trees (G3) with raw frames, with suspended generator / coroutine / async-generator OBJECTS whose frames carry elaborate_frame results that replace / insert sub-trees or further such objects, without frames, and with a "
         "failing unwrap hook. CPython 3.9-3.12. Oracle: for each Frame with origin not None, weakref.ref(origin) works and "
         "extract_outermost(origin).pyframe is that frame; each frame owned by a suspended coroutine/generator/async generator "
         "(ownership recorded by the builder) has that object as origin; extract_outermost(x) equals extract(x).frames[0] "
